@@ -8,9 +8,13 @@ harness/stepping.cc; doubles are 16-hex-digit bit patterns, +∞ is `7ff00000000
   tupd <status> <act> <mfp> <step> <xs> <nsteps>                                → <mfp'> <n'>
   move <x y z> <u v w> <dist>                                                   → <x' y' z'>
   status <s0> <errAlong> <killedEloss> <act> <bFailed> <bOutside> <bNoMat> <absorbed> → s0..s4
+  mscs <plus> <onb> <phys> <range> <mfp> <safety> <ri0> <rf0> <lm0> <limMinNew> <rfac> <lambda>
+       <sfac> <fix> <z>                     → <true path> <ri1> <rf1> <lm1>     (safety / safety_plus)
+  mscm <onb> <phys> <range> <mfp> <ri0> <rf0> <lm0> <rfac> <fix> <z>  → same      (minimal)
 acts: n d r f b p t x j s m<k>; statuses: - i a e k
 -/
 import CelerVerif.Model.Step
+import CelerVerif.Model.StepMsc
 import CelerVerif.Num.F64
 import CelerVerif.Model.Util
 
@@ -87,6 +91,25 @@ def driverStep (sc : Scalars Float) (line : String) : Scalars Float × String :=
      | some s0', some ea', some ke', some a', some bf', some bo', some bn', some ab' =>
        String.intercalate " " ((stepStatuses s0' ea' ke' a' bf' bo' bn' ab').map showStatus)
      | _, _, _, _, _, _, _, _ => "bad-op")
+  | ["mscs", plus, onb, phys, range, mfp, safety, ri0, rf0, lm0, lmn, rfac, lam, sfac, fix, z] =>
+    (sc, match pb plus, pb onb, pf phys, pf range, pf mfp, pf safety, pfo ri0, pf rf0, pf lm0 with
+     | some plus', some onb', some phys', some range', some mfp', some safety', some ri0',
+         some rf0', some lm0' =>
+       (match pf lmn, pf rfac, pf lam, pf sfac, pf fix, pf z with
+        | some lmn', some rfac', some lam', some sfac', some fix', some z' =>
+          let r := mscSafetyStepLimit ⟨rfac', lam', sfac', fix'⟩ plus' onb' phys' range' mfp' safety'
+            ⟨ri0', rf0', lm0'⟩ lmn' z'
+          s!"{hx r.1} {hxo r.2.rangeInit} {hx r.2.rangeFactor} {hx r.2.limitMin}"
+        | _, _, _, _, _, _ => "bad-op")
+     | _, _, _, _, _, _, _, _, _ => "bad-op")
+  | ["mscm", onb, phys, range, mfp, ri0, rf0, lm0, rfac, fix, z] =>
+    (sc, match pb onb, pf phys, pf range, pf mfp, pfo ri0, pf rf0, pf lm0, pf rfac, pf fix, pf z with
+     | some onb', some phys', some range', some mfp', some ri0', some rf0', some lm0',
+         some rfac', some fix', some z' =>
+       let r := mscMinimalStepLimit ⟨rfac', rfac', rfac', fix'⟩ onb' phys' range' mfp'
+         ⟨ri0', rf0', lm0'⟩ z'
+       s!"{hx r.1} {hxo r.2.rangeInit} {hx r.2.rangeFactor} {hx r.2.limitMin}"
+     | _, _, _, _, _, _, _, _, _, _ => "bad-op")
   | _ => (sc, "bad-op")
 
 end CelerVerif.Step
